@@ -144,6 +144,23 @@ def execute(engine, plan, known=None):
     except Violation as v:
         violation = v.as_dict()
         ctx.log("VIOLATION", v.oracle, v.klass)
+    except HarnessError:
+        raise
+    except Exception as e:  # noqa
+        # An exception that escaped from a library call the engines make without expecting failure (copying a
+        # valid object, reading a property, building a Function on a valid vector ...).  If the innermost frame is
+        # library code this is the library refusing a valid request in the middle of a history: reported as a
+        # violation of the property being checked.  Anything else is a defect of the harness and is re-raised.
+        tb = traceback.extract_tb(e.__traceback__)
+        inner = tb[-1].filename if tb else ""
+        lib_frames = [f for f in tb if os.path.realpath(f.filename).startswith(os.path.realpath(SRC_ROOT))]
+        if not lib_frames or not (os.path.realpath(inner).startswith(os.path.realpath(SRC_ROOT)) or "site-packages" in inner or "/lib/python" in inner):
+            raise
+        where = lib_frames[-1]
+        v = Violation("valid-call-raised", "%s" % (where.name,), "%s: %s raised inside %s (%s:%d) during a call that is valid for this state"
+                      % (type(e).__name__, str(e)[:120], where.name, os.path.basename(where.filename), where.lineno), ctx.step)
+        violation = v.as_dict()
+        ctx.log("VIOLATION", v.oracle, v.klass)
     finally:
         engine.cleanup()
         gc.collect()
